@@ -561,3 +561,42 @@ Example C03_tree_split_example_whitespace :
   TreeSplitRun.splits_cov (TreeModel.init_state TreeInvMain.ex_opts) TreeSplitRun.ex_split_whole3 TreeSplitRun.ex_split_pieces3.
 Proof. exact TreeSplitRun.ex_split_covered3. Qed.
 Print Assumptions C03_tree_split_example_whitespace.
+
+(* ------------------------------------------------------------------ the tree builder's side: a cut at a run boundary *)
+(* coq/Tree/TreeLoop.v, TreeSplitBoundary.v: the modes that cut character tokens into runs (SplitWhitespace), text of ANY
+   kind, cut at the end of the first run.  p: a state whose NotSplit character arm answers SplitWhitespace and where
+   character tokens are not foreign; x = r1 ++ rest, r1 the first maximal run of x.  Conditional on the three calls
+   answering Ok (their loops get different fuel; an answer does not depend on the fuel: C02_loop_answer_fuel_independent)
+   and on decidable side conditions that only run the model (TreeLoop.plain: the run token answers Reprocess ... Done,
+   never SplitWhitespace, from the two states the cut leaves; ignore_lf off after the first piece).  _partial: the cut
+   inside a run and the induction over the runs are not proved, and this theorem is not part of the side condition of
+   C03_tree_split_run_partial. *)
+From HV Require Tree.TreeLoop Tree.TreeSplitBoundary.
+Theorem C03_tree_run_boundary_split_partial :
+  forall p x k0 r1 w rest f line' r sx ra sa rb sb,
+    TreeInvRules.Hshape p ->
+    (forall y, TreeModelHelpers.is_foreign (TreeTypes.KChars TreeTypes.NotSplit y) p = TreeTypes.Ok false p) ->
+    (forall y, TreeModelRules.step (TreeTypes.mode p) (TreeTypes.KChars TreeTypes.NotSplit y) p =
+               TreeTypes.Ok (TreeTypes.SplitWhitespace y) (TreeSplitBody.alog (TreeTypes.mode p) k0 p)) ->
+    x = r1 ++ rest -> rest <> [] ->
+    TreeTypes.pop_front_char_run x = Some (r1, w, rest) -> TreeTypes.pop_front_char_run r1 = Some (r1, w, []) ->
+    TreeLoop.plain f (TreeSplitBoundary.run_tok w r1) (TreeSplitBody.alog (TreeTypes.mode p) k0 p) ->
+    TreeLoop.plain f (TreeSplitBoundary.run_tok w r1)
+      (TreeSplitBoundary.cut_state (TreeSplitBody.alog (TreeTypes.mode p) k0 p) rest) ->
+    TreeModel.process_to_completion (TreeTypes.KChars TreeTypes.NotSplit x) p = TreeTypes.Ok r sx ->
+    TreeModel.process_to_completion (TreeTypes.KChars TreeTypes.NotSplit r1) p = TreeTypes.Ok ra sa ->
+    TreeTypes.ignore_lf sa = false ->
+    TreeModel.process_token (TreeTypes.TChars rest) line' sa = TreeTypes.Ok rb sb ->
+    ra = TreeTypes.SContinue /\ rb = r /\ TreeSplit.same_core sx sb /\
+    TreeContractRun.dom_of sx = TreeContractRun.dom_of sb.
+Proof. exact TreeSplitBoundary.run_boundary_split. Qed.
+Print Assumptions C03_tree_run_boundary_split_partial.
+
+(* the loop over a token with one queued token is the loop over the token followed by the loop over the queued one *)
+Theorem C03_tree_loop_queue_decomposition :
+  forall q f t s, TreeLoop.plain f t s ->
+    exists k s1, 1 <= k <= f /\
+      (forall g, TreeModel.ptc_loop (k + g) t [] s = TreeTypes.Ok TreeTypes.SContinue s1) /\
+      (forall g, TreeModel.ptc_loop (k + g) t [q] s = TreeModel.ptc_loop g q [] s1).
+Proof. exact TreeLoop.loop_queue. Qed.
+Print Assumptions C03_tree_loop_queue_decomposition.
